@@ -253,7 +253,7 @@ var multiBlockGeos = []lz.BufConfig{
 }
 
 func (m Menu) and(o Menu) Menu {
-	return Menu{m.WriteChunks && o.WriteChunks, m.ReadFrom && o.ReadFrom, m.NTL && o.NTL, m.ParseNil && o.ParseNil, m.StopEarly && o.StopEarly, m.ShrinkDev && o.ShrinkDev, m.Reset && o.Reset}
+	return Menu{m.WriteChunks && o.WriteChunks, m.ReadFrom && o.ReadFrom, m.NTL && o.NTL, m.ParseNil && o.ParseNil, m.StopEarly && o.StopEarly, m.ShrinkDev && o.ShrinkDev, m.Reset && o.Reset, m.Restart && o.Restart}
 }
 
 func layerBounds(layers []Layer) map[string]any {
